@@ -190,8 +190,16 @@ def rt_midtask_scenario(ctx, j):
                 w.midtask()              # the task takes time; other threads may run meanwhile
                 info['in-task'] = False
 
+            def busy_routine():
+                busy()
+                yield 0.0
+
             def sched(world):
-                clk.SystemClock.sched(d0, busy)
+                if j.get('routine'):
+                    from sc3.base import stream as stm
+                    clk.SystemClock.sched(d0, stm.Routine(busy_routine))
+                else:
+                    clk.SystemClock.sched(d0, busy)
             s.foreign('sched busy task', sched)
 
             def send(world):
@@ -395,6 +403,63 @@ def nrt_reuse_scenario(ctx, j):
     return {'job': j}
 
 
+def nrt_fn_scenario(ctx, j):
+    """a plain function scheduled on a clock (not a routine) sends a bundle: listed at its wake-up time + latency, and
+    the raw score entry carries exactly that time"""
+    from sc3.base import main as _m, clock as clk, stream as stm, netaddr as nad
+    main = _m.main
+    rec = {'mode': 'nrt', 'job': dict(j)}
+
+    def data(sub):
+        return {'key': f'c07:nrt-fn:{sub}', 'replay': dict(rec, sub=sub)}
+    L = ctx.real('L', 0, 1000)
+    d0 = ctx.real('d0', 0, 1000)
+    fd = ctx.real('fd', 0, 1000)
+    seen = {}
+    with osc_shims():
+        main.reset()
+        try:
+            addr = nad.NetAddr('127.0.0.1', 57110)
+            clock = clk.TempoClock(2.0) if j.get('clock') == 'tempo' else (clk.AppClock if j.get('clock') == 'app'
+                                                                             else clk.SystemClock)
+
+            def fn():
+                seen['t'] = clk.SystemClock.seconds
+                addr.send_bundle(L, ['/fn', 1])
+
+            def body():
+                yield d0
+                seen['sched_at'] = clk.SystemClock.seconds
+                clock.sched(fd, fn)
+            stm.Routine(body).play(clk.SystemClock)
+            score = main.process(0)
+            lst = [e for e in score.list if e[1][0] == '/fn']
+            raw = bytes(score.raw)
+            full = list(score.list)
+        finally:
+            main.reset()
+    if 't' not in seen or len(lst) != 1:
+        raise Violation(f'the scheduled function ran {int("t" in seen)} times and {len(lst)} bundles are listed', None,
+                        data('count'))
+    tempo = 2 if j.get('clock') == 'tempo' else 1
+    ctx.prove(R(seen['t']) == R(seen['sched_at']) + R(fd) / tempo, 'scheduled function does not wake at the scheduling '
+              'time + delay', data('wake'))
+    ctx.prove(R(lst[0][0]) == R(seen['t']) + R(L), 'bundle sent by a scheduled function is not listed at its wake-up '
+              'time + latency', data('time'))
+    # raw entries
+    i = k = 0
+    while i < len(raw):
+        ln = struct.unpack('>i', raw[i:i + 4])[0]
+        i += 4
+        tree = oscref.decode(raw[i:i + ln])
+        i += ln
+        ctx.prove(tt_term(tree[1]) == symx.to_int_trunc(R(full[k][0]) * TWO32),
+                  f'raw score entry {k} ({full[k][1][0]}) is stamped differently from the listed time', data('raw-time'))
+        k += 1
+    ctx.note('nrt-fn')
+    return {'job': j}
+
+
 def main_end_time(j, d):
     """logical time at which process() leaves the main thread: the last executed instant"""
     acc = 0
@@ -413,6 +478,8 @@ def job(j):
         h = lambda c: rt_scenario(c, j)      # noqa
     elif j.get('reuse'):
         h = lambda c: nrt_reuse_scenario(c, j)     # noqa
+    elif j.get('fn'):
+        h = lambda c: nrt_fn_scenario(c, j)        # noqa
     else:
         h = lambda c: nrt_scenario(c, j)     # noqa
     st = explore(h, max_paths=20000, timeout_ms=20000, stop_on_violation=True)
@@ -437,11 +504,55 @@ def replay(rec):
         return None if 0 <= x - y < 2 ** -31 else f'round trip of {x} gives {y}'
     if j.get('midtask'):
         return _replay_midtask(j, g)
+    if j.get('fn'):
+        return _replay_fn(j, g)
     if j.get('reuse'):
         return _replay_reuse(j, g)
     if j['mode'] == 'nrt':
         return _replay_nrt(j, g)
     return _replay_rt(j, g)
+
+
+def _replay_fn(j, g):
+    from sc3.base import main as _m, clock as clk, stream as stm, netaddr as nad
+    main = _m.main
+    L, d0, fd = g('L', 0.25), g('d0', 0.5), g('fd', 0.5)
+    seen = {}
+    main.reset()
+    try:
+        addr = nad.NetAddr('127.0.0.1', 57110)
+        clock = clk.TempoClock(2.0) if j.get('clock') == 'tempo' else (clk.AppClock if j.get('clock') == 'app'
+                                                                         else clk.SystemClock)
+
+        def fn():
+            seen['t'] = clk.SystemClock.seconds
+            addr.send_bundle(L, ['/fn', 1])
+
+        def body():
+            yield d0
+            clock.sched(fd, fn)
+        stm.Routine(body).play(clk.SystemClock)
+        score = main.process(0)
+        full = list(score.list)
+        raw = bytes(score.raw)
+    finally:
+        main.reset()
+    lst = [e for e in full if e[1][0] == '/fn']
+    if 't' not in seen or len(lst) != 1:
+        return f'the scheduled function ran {int("t" in seen)} times and {len(lst)} bundles are listed'
+    if abs(lst[0][0] - (seen['t'] + L)) > 1e-9:
+        return f'bundle sent by a function scheduled on the clock (woken at {seen["t"]}) with latency {L} is listed at ' \
+               f'{lst[0][0]}'
+    i = k = 0
+    while i < len(raw):
+        ln = struct.unpack('>i', raw[i:i + 4])[0]
+        i += 4
+        tree = oscref.decode(raw[i:i + ln])
+        i += ln
+        if abs(tree[1] / 2 ** 32 - full[k][0]) > 1e-6:
+            return f'raw score entry {k} ({full[k][1][0]}) carries time {tree[1] / 2 ** 32}, listed at {full[k][0]}'
+        k += 1
+    return None
 
 
 def _replay_midtask(j, g):
@@ -461,7 +572,15 @@ def _replay_midtask(j, g):
         def busy():
             started.append(main.elapsed_time())
             time.sleep(0.5)
-        clk.SystemClock.sched(0.2, busy)
+
+        def busy_routine():
+            busy()
+            yield 0.0
+        if j.get('routine'):
+            from sc3.base import stream as stm
+            clk.SystemClock.sched(0.2, stm.Routine(busy_routine))
+        else:
+            clk.SystemClock.sched(0.2, busy)
         t0 = time.time()
         while not started and time.time() - t0 < 3:
             time.sleep(0.005)
@@ -674,6 +793,8 @@ def main(tier, seed):
             nrt.append(dict(mode='nrt', sends=list(sends), lats=['pos'] * n, msg=1))
     nrt += [dict(mode='nrt', reuse=1, depth=1), dict(mode='nrt', reuse=1, depth=2)]
     rt.append(dict(mode='rt', midtask=1))
+    rt.append(dict(mode='rt', midtask=1, routine=1))
+    nrt += [dict(mode='nrt', fn=1, clock=c) for c in ('sys', 'tempo', 'app')]
     for r in run_jobs('vf.props.c07', 'job', rt, 'rt'):
         chk.add('rt', r)
     for r in run_jobs('vf.props.c07', 'job', nrt, 'nrt'):
@@ -681,7 +802,7 @@ def main(tier, seed):
     chk.require_notes('rt', ['roundtrip', 'nested-refused', 'rt:bundle:routine:pos', 'rt:bundle:outside:pos',
                              'rt:completion:routine:pos', 'rt:nested:routine:pos', 'rt:bundle:routine:none',
                              'rt:bundle:routine:neg', 'rt:msg:routine:pos', 'rt:midtask:between'])
-    chk.require_notes('nrt', ['nrt', 'nrt-reuse'])
+    chk.require_notes('nrt', ['nrt', 'nrt-reuse', 'nrt-fn'])
     chk.bounds = {'rt': 'one send (bundle, nested bundle, message, message with completion-bundle blob) with symbolic '
                         'latencies from a routine step under arbitrary jitter or from the main thread',
                   'nrt': f'1..{nmax} sends from a routine / from outside, latency kinds pos/none/negative/zero, symbolic '
